@@ -188,6 +188,16 @@ func (p *WorkerPool) Stop() {
 	// Wait for all workers to finish
 	p.wg.Wait()
 
+	// Tasks that were accepted but never picked up by a worker must not be
+	// abandoned: their submitters are blocked on the result channel. Closing it
+	// tells them the task was not executed (SubmitWait returns ok=false and the
+	// caller runs the task itself).
+	for task := range p.taskQueue {
+		if task.ResultChan != nil {
+			close(task.ResultChan)
+		}
+	}
+
 	p.logger.logger.Printf("Worker pool stopped")
 }
 
@@ -264,9 +274,11 @@ func (p *WorkerPool) Resize(maxWorkers int) {
 			select {
 			case p.taskQueue <- task:
 			default:
-				// Queue full, notify caller of failure
+				// Queue full, notify caller of failure. The channel is closed, not
+				// sent a nil value: a nil value would reach the submitter as the
+				// task's result with ok=true.
 				if task.ResultChan != nil {
-					task.ResultChan <- nil
+					close(task.ResultChan)
 				}
 			}
 		}
@@ -274,7 +286,7 @@ func (p *WorkerPool) Resize(maxWorkers int) {
 		// Pool wasn't running, notify callers of dropped tasks
 		for _, task := range pendingTasks {
 			if task.ResultChan != nil {
-				task.ResultChan <- nil
+				close(task.ResultChan)
 			}
 		}
 	}
